@@ -60,6 +60,12 @@ def configs(ctx):
                     "n_hof": rng.choice([2, 3, 5]), "n_stop": rng.choice([4, 6]) if ctx.quick else rng.choice([6, 10, 15]),
                     "n_pop": rng.choice([4, 6]) if ctx.quick else rng.choice([6, 10]),
                     "k": 2, "selection": bool(i % 2), "adapt": bool((i // 2) % 2), "seed": rng.randrange(10000)})
+    # the other forced setting of the compiler (measurement outcomes forced to 0)
+    # (a 4-cycle with ONE emitter cannot be reached: the hall of fame keeps imperfect circuits whose score depends on the
+    #  outcome of the emitter measurements, so a setting that is not honoured shows)
+    out.append({"solver": "evolutionary", "n": 4, "edges": [(0, 1), (1, 2), (2, 3), (3, 0)], "n_emitter": 1,
+                "compiler": "stabilizer", "n_hof": 5, "n_stop": 6 if ctx.quick else 12, "n_pop": 8 if ctx.quick else 15,
+                "k": 2, "selection": False, "adapt": False, "seed": rng.randrange(10000), "md": 0})
     # warm start (an initial circuit handed to the solver), selection off and on
     for sel in (False, True):
         out.append({"solver": "evolutionary", "n": 3, "edges": [(0, 1), (1, 2)], "n_emitter": 1, "compiler": "stabilizer",
